@@ -38,3 +38,114 @@ def make_driver(p: Program, vectors):
         vecs[name] = (vec, els)
     drv.attrs["_vectors"] = table
     return drv, vecs
+
+
+# ---------------------------------------------------------------------------------------------------------
+# Drivers built by abstractly running the real machinery (definition constructors in a class body, the
+# metaclass, Driver.__init__ and the instance constructors) on an analysis-only synthetic module.
+SYN_DEVICES_SRC = '''
+from indi.device import Driver, properties
+
+
+class DevA(Driver):
+    main = properties.Group(
+        "MAIN",
+        vectors=dict(
+            text=properties.TextVector("V1", elements=dict(first=properties.Text("A"), second=properties.Text("B"))),
+            number=properties.NumberVector("V2", elements=dict(first=properties.Number("A"), second=properties.Number("B"))),
+            light=properties.LightVector("V22", elements=dict(first=properties.Light("A"))),
+            switch=properties.SwitchVector(
+                "V3", enabled=False, rule="AnyOfMany", elements=dict(first=properties.Switch("A"), second=properties.Switch("B"))
+            ),
+        ),
+    )
+
+
+class DevB(Driver):
+    aux = properties.Group(
+        "AUX",
+        vectors=dict(
+            info=properties.TextVector("V1", elements=dict(first=properties.Text("Z"))),
+            other=properties.NumberVector("W9", elements=dict(first=properties.Number("Z"))),
+        ),
+    )
+'''
+SYN_DEVICES_MOD = "indilint_synthetic.devices"
+
+
+def build_drivers(it, p, names=(("DevA", "DEVA"), ("DevB", "DEVB")), router=None):
+    """-> {device name: driver Obj}.  Every object is produced by interpreting repository code."""
+    import ast
+    from ..absint import Cls, Fn, Frame, Tup
+    from ..model import Undecided
+
+    if SYN_DEVICES_MOD not in p.modules:
+        p.add_synthetic_module(SYN_DEVICES_MOD, SYN_DEVICES_SRC)
+    mod = p.modules[SYN_DEVICES_MOD]
+    drv = p.cls("indi.device.driver.Driver")
+    meta = p.cls("indi.device.driver.DriverMeta")
+    gdef = p.cls("indi.device.properties.definition.group.Group")
+    new = meta.methods.get("__new__")
+    if new is None:
+        raise Undecided("DriverMeta.__new__ not found")
+    saved = dict(it.opts)
+    base_inline = it.opts.get("inline", lambda fi, node: False)
+
+    def pol(fi, node):
+        m = fi.module.name
+        if fi.name == "attach_event_handlers":
+            return False
+        return m.startswith("indi.device.") or m == SYN_DEVICES_MOD or base_inline(fi, node)
+
+    it.opts["inline"] = pol
+    it.opts["instantiate"] = lambda ci: ci.module.name.startswith("indi.device.") or ci.module.name == SYN_DEVICES_MOD
+    it.opts["max_depth"] = 16
+    fr = Frame(None, mod, {})
+    out = {}
+    try:
+        classes = [drv] + [p.cls(f"{SYN_DEVICES_MOD}.{c}") for c, _ in names]
+        for ci in classes:
+            ns = Dct(label=f"{ci.name}.namespace")
+            ns.set(Const("__module__"), Const(ci.module.name))
+            ns.set(Const("__qualname__"), Const(ci.name))
+            for k, e in ci.class_attrs.items():
+                is_group = isinstance(e, ast.Call) and p.resolve_class(ci.module, e.func) is gdef
+                if is_group:
+                    ns.set(Const(k), it.eval(e, Frame(None, ci.module, {})))
+                else:
+                    ns.set(Const(k), Obj(None, label=f"<{ci.name}.{k}>"))
+            for k in list(ci.methods) + list(ci.getters):
+                ns.set(Const(k), Obj(None, label=f"<{ci.name}.{k}>"))
+            it.run_function(Fn(new), [Cls(meta), Const(ci.name), Tup([Cls(b) for b in ci.bases]), ns], {})
+            tbl = ns.get(Const("_group_definitions"))
+            if tbl is None:
+                raise Undecided("DriverMeta.__new__ leaves no _group_definitions in the class namespace")
+            it.heap[("cls:" + ci.qualname, "_group_definitions")] = tbl
+        for cname, dname in names:
+            ci = p.cls(f"{SYN_DEVICES_MOD}.{cname}")
+            d = it.apply(Cls(ci), [], {"name": Const(dname), "router": router if router is not None else Const(None)}, [], None, fr, False)
+            if not isinstance(d, Obj):
+                raise Undecided(f"construction of {cname} did not yield an abstract object")
+            d.label = f"driver:{dname}"
+            out[dname] = d
+        # label the vectors and elements for readable verdicts
+        for dname, d in out.items():
+            groups = d.attrs.get("_groups")
+            if isinstance(groups, Dct):
+                for _, g in groups.pairs:
+                    vs = g.attrs.get("_vectors") if isinstance(g, Obj) else None
+                    if isinstance(vs, Dct):
+                        for _, v in vs.pairs:
+                            if isinstance(v, Obj):
+                                vn = v.attrs["_definition"].attrs["name"].v if isinstance(v.attrs.get("_definition"), Obj) else "?"
+                                v.label = f"vec:{dname}.{vn}"
+                                els = v.attrs.get("_elements")
+                                if isinstance(els, Dct):
+                                    for _, e in els.pairs:
+                                        if isinstance(e, Obj) and isinstance(e.attrs.get("_definition"), Obj):
+                                            e.label = f"el:{dname}.{vn}.{e.attrs['_definition'].attrs['name'].v}"
+        del it.events[:]
+        return out
+    finally:
+        it.opts.clear()
+        it.opts.update(saved)
